@@ -48,6 +48,31 @@ func runC13(r *Run) {
 		requireGuard(r, "R2", fnID(eb)+"#only-when-enabled", eb, func(cond ssa.Value) (bool, bool) {
 			return true, isFieldLoad(cond, "Params", "EnableCoinomics")
 		}, nil, isMA, "MintAndAllocate only while EnableCoinomics", "EndBlocker can mint while coinomics is disabled")
+		// re-activation: while disabled the last mint timestamp must be forgotten, otherwise the first block after
+		// re-activation mints for the whole disabled period
+		r.Rule("R3", "PATH.reactivation: on the EnableCoinomics==false edge of EndBlocker every return is preceded by SetPrevBlockTS(zero), except over the edge on which GetPrevBlockTS() is already zero")
+		en, _ := guardPassEdges(eb, func(cond ssa.Value) (bool, bool) { return true, isFieldLoad(cond, "Params", "EnableCoinomics") })
+		dis := negEdges(en)
+		alreadyZero, _ := guardPassEdges(eb, func(cond ssa.Value) (bool, bool) {
+			c, ok := callNamed(cond, "IsZero")
+			return true, ok && backSlice(callArgs(c)[0]).HasCall(func(g CallInfo) bool { return g.Name == "GetPrevBlockTS" })
+		})
+		isReset := isCallMatching(func(ci CallInfo) bool {
+			if ci.Name != "SetPrevBlockTS" {
+				return false
+			}
+			s := backSlice(argN(ci.Instr, 1))
+			return s.HasCall(func(g CallInfo) bool { return g.Name == "ZeroInt" }) && !s.HasCall(func(g CallInfo) bool { return g.Name == "BlockTime" })
+		})
+		okR := len(dis) > 0
+		var wit []string
+		for _, e := range dis {
+			if w := (PathQuery{Fn: eb, StartBlock: e.From.Succs[e.Succ], Block: isReset, Target: func(in ssa.Instruction) bool { _, ok := in.(*ssa.Return); return ok && in.Block() != eb.Recover }, DelEdge: edgeSet(alreadyZero)}).Search(); w != nil {
+				okR = false
+				wit = P.witness(w)
+			}
+		}
+		r.Check(okR, "R3", fnID(eb)+"#timestamp-forgotten-while-disabled", P.Pos(fnPos(eb)), "disabled ⇒ PrevBlockTS reset to zero", "while minting is disabled EndBlocker leaves the last mint timestamp in place: the first block after re-activation mints for the whole disabled period (not 'elapsed between consecutive block timestamps', and not 'nothing on the first block after activation')", wit...)
 	} else {
 		r.Bad("R2", "anchor/EndBlocker", "", "coinomics EndBlocker not found")
 	}
